@@ -36,6 +36,7 @@ import Lean.Elab.Tactic
 import Lean.Meta.AppBuilder
 import DecProofs.Properties.C12GenNaN
 import DecProofs.Properties.C02GenFmaFront
+import DecProofs.Properties.C02GenFmaFrontSpec
 import DecProofs.Properties.C02GenFmaSwap
 import DecProofs.Properties.C02GenFmaWrap
 import DecProofs.Properties.C02GenFmaZH
@@ -723,10 +724,11 @@ example : (caseLoop false false false false .NearestEven 0 (sgnW false) (sgnW fa
 
 /-! ## 6. The routine itself, case by case
 
-The front end (`C02GenFmaFrontSpec.front_spec`, in progress) hands over, for three numbers `x = ±c1·10^e1`, `y = ±c2·10^e2`,
+The front end (`C02GenFmaFrontSpec.front_spec`) hands over, for three numbers `x = ±c1·10^e1`, `y = ±c2·10^e2`,
 `z = ±c3·10^e3` with `c1·c2 ≠ 0`, `c3 ≠ 0`: `bid128_ext_fma … x y z m f = caseLoop … zs ps ze pe C3 C4 q3 q4 e3w e4w tmp` with the
-facts collected in `HandoverFacts`.  The theorems of this section take that equation and those facts as hypotheses and give
-the result of `bid128_ext_fma` itself in the case at hand. -/
+facts of `C02GenFmaFrontSpec.Handover` (`HandoverFacts` here: the same with `0 < c_i` added, `HandoverFacts.of`).  The theorems
+`ext_fma_*` take that equation and those facts and give the result of `bid128_ext_fma` in the case at hand; §7 puts
+`front_spec` in front. -/
 
 open Dec.C02GenRound (v128 v256)
 open Dec.C02GenCorrection (ofBits modeOf)
@@ -756,6 +758,16 @@ structure HandoverFacts (s1 s2 s3 : Bool) (c1 c2 c3 : Nat) (e1 e2 e3 : Int)
   e2hi : e2 ≤ 6111
   e3lo : -6176 ≤ e3
   e3hi : e3 ≤ 6111
+
+/-- from the front end's `Handover` -/
+theorem HandoverFacts.of {s1 s2 s3 : Bool} {c1 c2 c3 : Nat} {e1 e2 e3 : Int} {zs ps ze pe : UInt64} {C3 : U128} {C4 : U256}
+    {q3 q4 e3w e4w : Int32} (h : Dec.C02GenFmaFrontSpec.Handover s1 s2 s3 c1 c2 c3 e1 e2 e3 zs ps ze pe C3 C4 q3 q4 e3w e4w)
+    (h12 : c1 * c2 ≠ 0) (h3 : c3 ≠ 0) : HandoverFacts s1 s2 s3 c1 c2 c3 e1 e2 e3 zs ps ze pe C3 C4 q3 q4 e3w e4w := by
+  have hc1 : c1 ≠ 0 := fun h0 => h12 (by rw [h0]; simp)
+  have hc2 : c2 ≠ 0 := fun h0 => h12 (by rw [h0]; simp)
+  refine ⟨h.hzs, h.hps, h.hC3, h.hC4, h.hq3, h.hq4, h.he3, h.he4, h.hze, ?_, by omega, by omega, by omega, h.hc1, h.hc2,
+    h.hc3, h.hr1.1, h.hr1.2, h.hr2.1, h.hr2.2, h.hr3.1, h.hr3.2⟩
+  rw [h.hpe]; congr 1; omega
 
 theorem i32sub (a b : Int32) (x y : Int) (ha : a.toInt = x) (hb : b.toInt = y) (h1 : -2^31 ≤ x - y) (h2 : x - y < 2^31) :
     (a - b).toInt = x - y := by
@@ -933,5 +945,226 @@ theorem ext_fma_arm26 (haar : AarSpec) (p1 p2 p3 p4 : Bool) (x y z : U128) (m : 
     have e2' : (ps != zs) = true := by
       rw [H.hps, H.hzs, Dec.C02GenFmaSwap.sgnW_bne]; cases hh : (s1 != s2) <;> cases s3 <;> simp_all
     rw [e1', e2']; simp
+
+/-! ### the second pass: after the swap -/
+
+/-- the first pass of a product of at most 34 digits with `delta < 0` ends in the swap -/
+theorem first_pass_swaps (p1 p2 p3 p4 : Bool) (m : RoundingMode) (f : UInt32)
+    {s1 s2 s3 : Bool} {c1 c2 c3 : Nat} {e1 e2 e3 : Int} {zs ps ze pe : UInt64} {C3 : U128} {C4 : U256} {q3 q4 e3w e4w : Int32}
+    (H : HandoverFacts s1 s2 s3 c1 c2 c3 e1 e2 e3 zs ps ze pe C3 C4 q3 q4 e3w e4w) (tmp : F64U)
+    (hd : (ndigits c3 : Int) + e3 - ndigits (c1 * c2) - (e1 + e2) < 0) (hq4 : ndigits (c1 * c2) ≤ 34) :
+    caseLoop p1 p2 p3 p4 m f zs ps ze pe C3 C4 q3 q4 e3w e4w tmp =
+      run m 4095 (St.init p1 p2 p3 p4 f zs ps ze pe C3 C4 q3 q4 e3w e4w tmp).swap := by
+  have a := H.q3_range; have b := H.q4_range
+  have h1 := H.e1lo; have h2 := H.e1hi; have h3 := H.e2lo; have h4 := H.e2hi; have h5 := H.e3lo; have h6 := H.e3hi
+  have hdv := H.delta_val
+  have hnd : (-(q3 + e3w - q4 - e4w)).toInt = (ndigits (c1 * c2) : Int) + (e1 + e2) - ndigits c3 - e3 := by
+    rw [i32neg _ _ hdv (by omega) (by omega)]; omega
+  have hq3' := H.hq3; have hq4' := H.hq4
+  rw [caseLoop_eq]
+  refine run_swap m 4095 _ ?_ ?_ ?_
+  · rw [decide_eq_true_eq, ge_iff_le, Int32.le_iff_toInt_le]
+    show ¬ ((0 : Int) ≤ (q3 + e3w - q4 - e4w).toInt)
+    rw [hdv]; omega
+  · show ¬ (decide (c_P34 < q4) && decide (q4 ≤ -(q3 + e3w - q4 - e4w))) = true
+    rw [show c_P34 = (34 : Int32) from rfl, case7Cond_iff q3 q4 _, decide_eq_true_eq, H.hq4]; omega
+  · show swapCond q3 q4 (-(q3 + e3w - q4 - e4w)) c_P34 = true
+    rw [show c_P34 = (34 : Int32) from rfl, swapCond_iff q3 q4 _ ⟨by omega, by omega, by omega, by omega, by omega, by omega⟩,
+      decide_eq_true_eq, H.hq4]; omega
+
+open Dec.C02GenFmaZ in
+/-- the entry invariant of block Z in the SECOND pass: the product (at most 34 digits) in the place of the addend -/
+theorem HandoverFacts.zinv_swapped {s1 s2 s3 : Bool} {c1 c2 c3 : Nat} {e1 e2 e3 : Int} {zs ps ze pe : UInt64} {C3 : U128}
+    {C4 : U256} {q3 q4 e3w e4w : Int32} (H : HandoverFacts s1 s2 s3 c1 c2 c3 e1 e2 e3 zs ps ze pe C3 C4 q3 q4 e3w e4w)
+    (hq4 : ndigits (c1 * c2) ≤ 34) (hlo : -6176 ≤ e1 + e2) :
+    ZInv ⟨C4.w0, C4.w1⟩ ⟨C3.w0, C3.w1, C4.w2, C4.w3⟩ q4 q3 e4w (-(q3 + e3w - q4 - e4w)) c_P34 ps zs pe (s1 != s2) s3 (c1 * c2) c3
+      (e1 + e2) e3 := by
+  have a := H.q3_range; have b := H.q4_range
+  have h1 := H.e1lo; have h2 := H.e1hi; have h3 := H.e2lo; have h4 := H.e2hi; have h5 := H.e3lo; have h6 := H.e3hi
+  have hdv := H.delta_val
+  have hnd : (-(q3 + e3w - q4 - e4w)).toInt = (ndigits (c1 * c2) : Int) + (e1 + e2) - ndigits c3 - e3 := by
+    rw [i32neg _ _ hdv (by omega) (by omega)]; omega
+  have hlt : c1 * c2 < 10 ^ 34 := (ndigits_le_iff H.prod_pos).1 hq4
+  obtain ⟨w2, w3, v1, v2⟩ := swap_coeff C3 C4 (by rw [H.hC4]; exact hlt)
+  refine ⟨?_, H.prod_pos, hlt, H.hq4, H.he4, hlo, by omega, H.hpe, ?_, ?_, ?_, H.c3pos, H.hq3, by omega, by omega, by omega, hnd, rfl⟩
+  · rw [← H.hC4, ← v1]; unfold v128; simp only []; omega
+  · rw [H.hps, sgnW_toNat]; cases (s1 != s2) <;> rfl
+  · rw [H.hzs, sgnW_toNat]; cases s3 <;> rfl
+  · rw [← H.hC3, ← v2]; unfold v256; simp only []; omega
+
+open Dec.C02GenFmaZ in
+/-- **old Case (8) (and whatever lands in Case (1) after the swap) for the routine**: `delta < 0`, a product of at most 34
+digits; after the swap the code's test of Case (1) holds — the PRODUCT dominates, the addend only decides the rounding -/
+theorem ext_fma_swap_caseZ1 (p1 p2 p3 p4 : Bool) (x y z : U128) (m : RoundingMode) (f : UInt32)
+    {s1 s2 s3 : Bool} {c1 c2 c3 : Nat} {e1 e2 e3 : Int} {zs ps ze pe : UInt64} {C3 : U128} {C4 : U256} {q3 q4 e3w e4w : Int32}
+    (H : HandoverFacts s1 s2 s3 c1 c2 c3 e1 e2 e3 zs ps ze pe C3 C4 q3 q4 e3w e4w) (tmp : F64U)
+    (hfront : bid128_ext_fma p1 p2 p3 p4 x y z m f = caseLoop p1 p2 p3 p4 m f zs ps ze pe C3 C4 q3 q4 e3w e4w tmp)
+    (hd : (ndigits c3 : Int) + e3 - ndigits (c1 * c2) - (e1 + e2) < 0) (hq4 : ndigits (c1 * c2) ≤ 34)
+    (hlo : -6176 ≤ e1 + e2)
+    (hcase : case1Cond q4 e4w (-(q3 + e3w - q4 - e4w)) c_P34 = true) :
+    ∃ lt gt ilt igt : Bool, bid128_ext_fma p1 p2 p3 p4 x y z m f =
+      .ok (ofBits (encode (fmaD (modeOf m) false (.fin s1 c1 e1) (.fin s2 c2 e2) (.fin s3 c3 e3)).1), lt, gt, ilt, igt,
+        f ||| UInt32.ofNat (fmaD (modeOf m) false (.fin s1 c1 e1) (.fin s2 c2 e2) (.fin s3 c3 e3)).2) := by
+  have a := H.q3_range; have b := H.q4_range
+  have h1 := H.e1lo; have h2 := H.e1hi; have h3 := H.e2lo; have h4 := H.e2hi; have h5 := H.e3lo; have h6 := H.e3hi
+  have hdv := H.delta_val
+  have hnd : (-(q3 + e3w - q4 - e4w)).toInt = (ndigits (c1 * c2) : Int) + (e1 + e2) - ndigits c3 - e3 := by
+    rw [i32neg _ _ hdv (by omega) (by omega)]; omega
+  obtain ⟨lt, gt, ilt, igt, h⟩ := caseZ1_spec _ _ q4 q3 e4w (-(q3 + e3w - q4 - e4w)) c_P34 ps zs pe (s1 != s2) s3 (c1 * c2) c3
+    (e1 + e2) e3 (H.zinv_swapped hq4 hlo) hcase p1 p2 p3 p4 m f (⟨(0xbaddbaddbaddbadd : UInt64), (0xbaddbaddbaddbadd : UInt64)⟩ : U128)
+    default e3w default ⟨C3.w0, C3.w1⟩ default default default default (if e1 + e2 ≤ e3 then e1 + e2 else e3)
+  rw [addFin_comm] at h
+  refine ⟨lt, gt, ilt, igt, ?_⟩
+  rw [hfront, first_pass_swaps p1 p2 p3 p4 m f H tmp hd hq4]
+  refine run_caseZ1 m 4094 _ _ ?_ hcase h
+  rw [decide_eq_true_eq, ge_iff_le, Int32.le_iff_toInt_le]
+  show (0 : Int) ≤ (-(q3 + e3w - q4 - e4w)).toInt
+  rw [hnd]; omega
+
+
+/-! ## 7. `bid128_ext_fma` and `bid128_fma` on numbers, case by case (tests in terms of digit counts and exponents) -/
+
+open Dec.C01GenMul (dOf)
+open Dec.C02GenFmaFrontSpec (front_spec)
+
+/-- what `bid128_fma` returns, from what `bid128_ext_fma` returns (the four indicators are dropped) -/
+theorem fma_of_ext (x y z : U128) (m : RoundingMode) (f : UInt32) (W : U128) (F : UInt32)
+    (h : ∃ lt gt ilt igt : Bool, bid128_ext_fma false false false false x y z m f = .ok (W, lt, gt, ilt, igt, F)) :
+    bid128_fma x y z m f = .ok (W, F) := by
+  obtain ⟨lt, gt, ilt, igt, h⟩ := h
+  unfold bid128_fma
+  take_call h
+  rfl
+
+/-- the statement "the routine returns the model's `fmaD`" for `bid128_ext_fma` (some indicators) … -/
+def ExtFmaOK (p1 p2 p3 p4 : Bool) (x y z : U128) (m : RoundingMode) (f : UInt32) : Prop :=
+  ∃ lt gt ilt igt : Bool, bid128_ext_fma p1 p2 p3 p4 x y z m f =
+    .ok (ofBits (encode (fmaD (modeOf m) false (dOf x) (dOf y) (dOf z)).1), lt, gt, ilt, igt,
+      f ||| UInt32.ofNat (fmaD (modeOf m) false (dOf x) (dOf y) (dOf z)).2)
+
+/-- … and for `bid128_fma` -/
+def FmaOK (x y z : U128) (m : RoundingMode) (f : UInt32) : Prop :=
+  bid128_fma x y z m f =
+    .ok (ofBits (encode (fmaD (modeOf m) false (dOf x) (dOf y) (dOf z)).1),
+      f ||| UInt32.ofNat (fmaD (modeOf m) false (dOf x) (dOf y) (dOf z)).2)
+
+theorem FmaOK.of_ext {x y z : U128} {m : RoundingMode} {f : UInt32} (h : ExtFmaOK false false false false x y z m f) :
+    FmaOK x y z m f := fma_of_ext x y z m f _ _ h
+
+/-- the tests of the `delta < 0` side, on numbers (`D = −delta`) -/
+theorem cond1112_iff (q3 q4 d : Int32) (r : Rng q3 q4 d) :
+    cond1112 q3 q4 d 34 = decide ((34 ≤ d.toInt ∧ d.toInt < q4.toInt ∧ q4.toInt < d.toInt + q3.toInt) ∨
+      (d.toInt < 34 ∧ 34 < q4.toInt ∧ q4.toInt < d.toInt + q3.toInt)) := by
+  have a := dq d q3 r.dlo r.dhi r.q3lo r.q3hi
+  rw [Bool.eq_iff_iff]
+  simp only [cond1112, Bool.or_eq_true, Bool.and_eq_true, decide_eq_true_eq, Int32.le_iff_toInt_le, Int32.lt_iff_toInt_lt, a, i34]
+  omega
+
+open Dec.C02GenFmaWrap in
+theorem cond1517_iff (q3 q4 d : Int32) (r : Rng q3 q4 d) :
+    cond1517 q3 q4 d 34 = decide ((34 ≤ d.toInt ∧ d.toInt + q3.toInt ≤ q4.toInt) ∨
+      (d.toInt < 34 ∧ 34 < d.toInt + q3.toInt ∧ d.toInt + q3.toInt ≤ q4.toInt) ∨
+      (d.toInt + q3.toInt ≤ 34 ∧ 34 < q4.toInt)) := by
+  have a := dq d q3 r.dlo r.dhi r.q3lo r.q3hi
+  rw [Bool.eq_iff_iff]
+  simp only [cond1517, Bool.or_eq_true, Bool.and_eq_true, decide_eq_true_eq, Int32.le_iff_toInt_le, Int32.lt_iff_toInt_lt, a, i34]
+  omega
+
+/-- the test of Case (1), on numbers -/
+theorem case1Cond_iff (q3 e3 d : Int32) (h1 : 1 ≤ q3.toInt) (h2 : q3.toInt ≤ 68) (h3 : -12352 ≤ e3.toInt)
+    (h4 : e3.toInt ≤ 12222) (h5 : 0 ≤ d.toInt) (h6 : d.toInt < 2^19) :
+    case1Cond q3 e3 d 34 = decide (35 ≤ d.toInt ∨ (d.toInt = 34 ∧ e3.toInt + 6176 < 34 - q3.toInt)) := by
+  have a : (d - 1).toInt = d.toInt - 1 := i32sub d 1 _ 1 rfl rfl (by omega) (by omega)
+  have b : (e3 + 0x1820).toInt = e3.toInt + 6176 := i32add e3 0x1820 _ 6176 rfl rfl (by omega) (by omega)
+  have c : ((34 : Int32) - q3).toInt = 34 - q3.toInt := i32sub 34 q3 34 _ rfl rfl (by omega) (by omega)
+  rw [Bool.eq_iff_iff]
+  simp only [case1Cond, Bool.or_eq_true, Bool.and_eq_true, decide_eq_true_eq, beq_iff_eq, Int32.le_iff_toInt_le,
+    Int32.lt_iff_toInt_lt, ← Int32.toInt_inj, a, b, c, i34]
+  omega
+
+section final
+variable (x y z : U128) (m : RoundingMode) (f : UInt32) {s1 s2 s3 : Bool} {c1 c2 c3 : Nat} {e1 e2 e3 : Int}
+  (hx : dOf x = .fin s1 c1 e1) (hy : dOf y = .fin s2 c2 e2) (hz : dOf z = .fin s3 c3 e3) (h12 : c1 * c2 ≠ 0) (h3 : c3 ≠ 0)
+include hx hy hz h12 h3
+
+/-- **Case (7)**: three numbers, non-zero product of more than 34 digits, non-zero addend lying entirely below the last
+digit of the product (`q3 + e3 ≤ e1 + e2`) -/
+theorem ext_fma_ok_case7 (p1 p2 p3 p4 : Bool) (h34 : 34 < ndigits (c1 * c2)) (hlow : (ndigits c3 : Int) + e3 ≤ e1 + e2) :
+    ExtFmaOK p1 p2 p3 p4 x y z m f := by
+  obtain ⟨zs, ps, ze, pe, C3, C4, q3, q4, e3w, e4w, tmp, hh, hfront⟩ := front_spec p1 p2 p3 p4 x y z m f hx hy hz h12 h3
+  unfold ExtFmaOK; rw [hx, hy, hz]
+  exact ext_fma_case7 p1 p2 p3 p4 x y z m f (HandoverFacts.of hh h12 h3) tmp hfront h34 hlow
+
+/-- **Cases (1), (1′), (1″A)** (first pass): `delta = q3 + e3 − q4 − (e1 + e2) ≥ 35`, or `= 34` with
+`e3 + 6176 < 34 − q3` — the addend dominates -/
+theorem ext_fma_ok_case1 (p1 p2 p3 p4 : Bool)
+    (hcase : 35 ≤ (ndigits c3 : Int) + e3 - ndigits (c1 * c2) - (e1 + e2) ∨
+      ((ndigits c3 : Int) + e3 - ndigits (c1 * c2) - (e1 + e2) = 34 ∧ e3 + 6176 < 34 - (ndigits c3 : Int))) :
+    ExtFmaOK p1 p2 p3 p4 x y z m f := by
+  obtain ⟨zs, ps, ze, pe, C3, C4, q3, q4, e3w, e4w, tmp, hh, hfront⟩ := front_spec p1 p2 p3 p4 x y z m f hx hy hz h12 h3
+  have H := HandoverFacts.of hh h12 h3
+  have a := H.q3_range; have b := H.q4_range
+  have h1 := H.e1lo; have h2 := H.e1hi; have h3' := H.e2lo; have h4 := H.e2hi; have h5 := H.e3lo; have h6 := H.e3hi
+  have hdv := H.delta_val
+  unfold ExtFmaOK; rw [hx, hy, hz]
+  refine ext_fma_caseZ1 p1 p2 p3 p4 x y z m f H tmp hfront (by omega) ?_
+  rw [show c_P34 = (34 : Int32) from rfl, case1Cond_iff q3 e3w _ (by rw [H.hq3]; omega) (by rw [H.hq3]; omega)
+    (by rw [H.he3]; omega) (by rw [H.he3]; omega) (by rw [hdv]; omega) (by rw [hdv]; omega), decide_eq_true_eq, hdv, H.he3,
+    H.hq3]
+  exact hcase
+
+/-- **old Case (8)** and whatever else lands in Case (1) after the swap: product of at most 34 digits with
+`delta' = q4 + (e1 + e2) − q3 − e3 ≥ 35`, or `= 34` with `(e1 + e2) + 6176 < 34 − q4` — the product dominates -/
+theorem ext_fma_ok_case8 (p1 p2 p3 p4 : Bool) (hq4 : ndigits (c1 * c2) ≤ 34)
+    (hcase : 35 ≤ (ndigits (c1 * c2) : Int) + (e1 + e2) - ndigits c3 - e3 ∨
+      ((ndigits (c1 * c2) : Int) + (e1 + e2) - ndigits c3 - e3 = 34 ∧ (e1 + e2) + 6176 < 34 - (ndigits (c1 * c2) : Int))) :
+    ExtFmaOK p1 p2 p3 p4 x y z m f := by
+  obtain ⟨zs, ps, ze, pe, C3, C4, q3, q4, e3w, e4w, tmp, hh, hfront⟩ := front_spec p1 p2 p3 p4 x y z m f hx hy hz h12 h3
+  have H := HandoverFacts.of hh h12 h3
+  have a := H.q3_range; have b := H.q4_range
+  have h1 := H.e1lo; have h2 := H.e1hi; have h3' := H.e2lo; have h4 := H.e2hi; have h5 := H.e3lo; have h6 := H.e3hi
+  have hdv := H.delta_val
+  have hnd : (-(q3 + e3w - q4 - e4w)).toInt = (ndigits (c1 * c2) : Int) + (e1 + e2) - ndigits c3 - e3 := by
+    rw [i32neg _ _ hdv (by omega) (by omega)]; omega
+  unfold ExtFmaOK; rw [hx, hy, hz]
+  refine ext_fma_swap_caseZ1 p1 p2 p3 p4 x y z m f H tmp hfront (by omega) hq4 (by omega) ?_
+  rw [show c_P34 = (34 : Int32) from rfl, case1Cond_iff q4 e4w _ (by rw [H.hq4]; omega) (by rw [H.hq4]; omega)
+    (by rw [H.he4]; omega) (by rw [H.he4]; omega) (by rw [hnd]; omega) (by rw [hnd]; omega), decide_eq_true_eq, hnd, H.he4,
+    H.hq4]
+  exact hcase
+
+open Dec.C02GenFmaWrap in
+/-- **Cases (15)–(17)**, given `AarSpec`: product of more than 34 digits, addend reaching into its digits from above its last
+digit but not above its first (`e1 + e2 ≤ e3`, `q3 + e3 ≤ q4 + e1 + e2`) -/
+theorem ext_fma_ok_case1517 (haar : AarSpec) (p1 p2 p3 p4 : Bool) (h34 : 34 < ndigits (c1 * c2))
+    (hlo : e1 + e2 ≤ e3) (hd : (ndigits c3 : Int) + e3 < ndigits (c1 * c2) + (e1 + e2)) :
+    ExtFmaOK p1 p2 p3 p4 x y z m f := by
+  obtain ⟨zs, ps, ze, pe, C3, C4, q3, q4, e3w, e4w, tmp, hh, hfront⟩ := front_spec p1 p2 p3 p4 x y z m f hx hy hz h12 h3
+  have H := HandoverFacts.of hh h12 h3
+  have a := H.q3_range; have b := H.q4_range
+  have h1 := H.e1lo; have h2 := H.e1hi; have h3' := H.e2lo; have h4 := H.e2hi; have h5 := H.e3lo; have h6 := H.e3hi
+  have hdv := H.delta_val
+  have hnd : (-(q3 + e3w - q4 - e4w)).toInt = (ndigits (c1 * c2) : Int) + (e1 + e2) - ndigits c3 - e3 := by
+    rw [i32neg _ _ hdv (by omega) (by omega)]; omega
+  have hq3' := H.hq3; have hq4' := H.hq4
+  have r : Rng q3 q4 (-(q3 + e3w - q4 - e4w)) := ⟨by omega, by omega, by omega, by omega, by omega, by omega⟩
+  unfold ExtFmaOK; rw [hx, hy, hz]
+  refine ext_fma_case1517 haar p1 p2 p3 p4 x y z m f H tmp hfront (by omega) ?_ ?_ ?_ ?_
+  · rw [show c_P34 = (34 : Int32) from rfl, case7Cond_iff q3 q4 _, decide_eq_true_eq, hnd, hq4']; omega
+  · rw [show c_P34 = (34 : Int32) from rfl, swapCond_iff q3 q4 _ r, decide_eq_true_eq, hq4']; omega
+  · rw [show c_P34 = (34 : Int32) from rfl, cond1112_iff q3 q4 _ r, decide_eq_true_eq, hnd, hq4', hq3']; omega
+  · rw [show c_P34 = (34 : Int32) from rfl, cond1517_iff q3 q4 _ r, decide_eq_true_eq, hnd, hq4', hq3']; omega
+
+open Dec.C02GenFmaWrap in
+/-- **the arm of Cases (2)–(6)** (first pass), given `AarSpec`: `delta ∈ {0, 1}` and opposite signs -/
+theorem ext_fma_ok_arm26 (haar : AarSpec) (p1 p2 p3 p4 : Bool)
+    (hd0 : 0 ≤ (ndigits c3 : Int) + e3 - ndigits (c1 * c2) - (e1 + e2))
+    (hd1 : (ndigits c3 : Int) + e3 - ndigits (c1 * c2) - (e1 + e2) ≤ 1) (hsign : (s1 != s2) ≠ s3) :
+    ExtFmaOK p1 p2 p3 p4 x y z m f := by
+  obtain ⟨zs, ps, ze, pe, C3, C4, q3, q4, e3w, e4w, tmp, hh, hfront⟩ := front_spec p1 p2 p3 p4 x y z m f hx hy hz h12 h3
+  unfold ExtFmaOK; rw [hx, hy, hz]
+  exact ext_fma_arm26 haar p1 p2 p3 p4 x y z m f (HandoverFacts.of hh h12 h3) tmp hfront hd0 hd1 hsign
+
+end final
 
 end Dec.C02GenFmaAssembly
